@@ -1270,9 +1270,14 @@ class Reporter:
 
 
 def create_href(href: str, base_href: Optional[str] = None) -> ET.Element:
-    parsed_url = urllib.parse.urlparse(href)
-    if "//" in parsed_url.path:
+    try:
+        parsed_url = urllib.parse.urlparse(href)
+    except ValueError:
+        # e.g. "//[": only looked at for the warning below
         logging.warning("invalidly formatted href: %s", href)
+    else:
+        if "//" in parsed_url.path:
+            logging.warning("invalidly formatted href: %s", href)
     et = ET.Element("{DAV:}href")
     if base_href is not None:
         # Quote before joining: base_href and href are decoded paths, in which
